@@ -17,6 +17,7 @@
 package ws
 
 import (
+	"context"
 	"crypto/tls"
 	"fmt"
 	"net"
@@ -190,11 +191,33 @@ func (w *wsPipe) GetOption(name string) (interface{}, error) {
 }
 
 type dialer struct {
-	addr  string // url
-	proto mangos.ProtocolInfo
-	opts  options
-	iswss bool
-	lock  sync.Mutex
+	addr   string // url
+	proto  mangos.ProtocolInfo
+	opts   options
+	iswss  bool
+	lock   sync.Mutex
+	ctx    context.Context // canceled by Close
+	cancel context.CancelFunc
+	closed bool
+	conns  map[net.Conn]struct{} // connections whose upgrade is in progress
+}
+
+// netDial opens the connection for one Dial and remembers it until the
+// upgrade is over, so that Close can end an upgrade nobody answers.
+func (d *dialer) netDial(ctx context.Context, network, addr string) (net.Conn, error) {
+	var nd net.Dialer
+	c, err := nd.DialContext(ctx, network, addr)
+	if err != nil {
+		return nil, err
+	}
+	d.lock.Lock()
+	defer d.lock.Unlock()
+	if d.closed {
+		_ = c.Close()
+		return nil, mangos.ErrClosed
+	}
+	d.conns[c] = struct{}{}
+	return c, nil
 }
 
 func (d *dialer) Dial() (transport.Pipe, error) {
@@ -222,7 +245,19 @@ func (d *dialer) Dial() (transport.Pipe, error) {
 	}
 
 	var err error
-	if w.ws, _, err = wd.Dial(d.addr, nil); err != nil {
+	var nc net.Conn
+	wd.NetDialContext = func(ctx context.Context, network, addr string) (net.Conn, error) {
+		c, err := d.netDial(ctx, network, addr)
+		nc = c
+		return c, err
+	}
+	w.ws, _, err = wd.DialContext(d.ctx, d.addr, nil)
+	d.lock.Lock()
+	if nc != nil {
+		delete(d.conns, nc)
+	}
+	d.lock.Unlock()
+	if err != nil {
 		if err == websocket.ErrBadHandshake {
 			return nil, mangos.ErrBadProto
 		}
@@ -237,6 +272,20 @@ func (d *dialer) Dial() (transport.Pipe, error) {
 
 	w.wg.Add(1)
 	return w, nil
+}
+
+// Close aborts a connection attempt that is still in progress (a server
+// that accepts the connection and never answers the upgrade request, say).
+// The core dialer calls it when it is closed; nothing is dialed afterwards.
+func (d *dialer) Close() error {
+	d.lock.Lock()
+	d.closed = true
+	for c := range d.conns {
+		_ = c.Close()
+	}
+	d.lock.Unlock()
+	d.cancel()
+	return nil
 }
 
 func (d *dialer) SetOption(n string, v interface{}) error {
@@ -509,6 +558,8 @@ func (wsTran) NewDialer(addr string, sock mangos.Socket) (transport.Dialer, erro
 		iswss: false,
 		opts:  make(map[string]interface{}),
 	}
+	d.ctx, d.cancel = context.WithCancel(context.Background())
+	d.conns = make(map[net.Conn]struct{})
 
 	if strings.HasPrefix(addr, "wss://") {
 		d.iswss = true
